@@ -87,6 +87,10 @@ def native_playback(crate_dir, test_name, release, logfile, timeout=1200):
     failed = bool(re.search(r"test result: FAILED|panicked at|SIGSEGV|SIGABRT|stack overflow|signal: \d+|test exited abnormally|error: test failed", text)) \
         or (nran > 0 and rc not in (0, None))
     passed = bool(re.search(r"test result: ok\. [1-9]", text)) and rc == 0
+    # a playback that runs out of recorded values took a different path natively than under Kani
+    # (stubs and environment models do not exist natively): that is no reproduction
+    if "Not enough det vals found" in text:
+        failed = False
     return {"rc": rc, "ran": nran, "failed": failed and nran > 0, "passed": passed and not failed, "tail": "\n".join(text.splitlines()[-25:])}
 
 
@@ -131,6 +135,16 @@ def replay_counterexample(h, r, scratch, prop, logdir):
             lg = os.path.join(logdir, "%s.playback-%s.log" % (h.name, prof))
             outcome[prof] = native_playback(crate_dir, test_name, rel, lg)
     rec["native"] = outcome
+    if getattr(h, "native_replay", True) is False:
+        # environment-model harness (the schedule / atomic outcomes live in a Kani-only model):
+        # there is no native run that could replay the assignment; report from the solver trace
+        rec["reproduced"] = False
+        rec["ub_only"] = True
+        rec["detail"] = ("environment-model harness: the counterexample is a schedule of the modelled atomic cell and cannot be "
+                         "replayed natively; reported from the CBMC trace (values in playback_test)")
+        json.dump(rec, open(path, "w"), indent=1)
+        K.log("[replay] %s model-only harness, reported from the trace -> %s" % (h.name, path))
+        return {"reproduced": False, "ub_only": True, "path": path, "detail": rec["detail"]}
     reproduced = any(o.get("failed") for o in outcome.values())
     rec["reproduced"] = reproduced
     rec["ub_only"] = (not reproduced) and all_mem and all(o.get("passed") for o in outcome.values()) and bool(outcome)
